@@ -40,7 +40,7 @@ def main(tier, seed):
     chk = Check("C03", tier, seed)
     chk.assumptions = list(ASSUMPTIONS)
     c03.obligations(chk)
-    if tier == "thorough":
+    if tier in ("quick", "thorough"):      # the replay on the real code takes < 1 s: run it in both tiers (never counted as proved)
         fails, n, d = c03_concrete.search(stop_at=3)
         chk.bounded.append({"name": "bounded cross-check: type pool x (generic inputs + corrupted wire forms) on the real unmarshal",
                             "evaluations": n, "distinct_nontrivial": d, "failures": len(fails),
